@@ -38,7 +38,7 @@ func init() {
 		Rule: "case = sketch reached by a seeded history incl. cleared-then-refilled stores, negatives with every store kind and arbitrary non-negative float64 weights: ToProto -> proto.Marshal -> Unmarshal -> FromProtoWithStoreProvider(any kind) must give an Equals mapping and bitwise equal zero weight and bin weights (count within 1e-12); EncodeProto bytes must unmarshal to a message proto.Equal to ToProto(); " +
 			"sources are also reweighted and may hold bins whose weight underflowed to zero (which carry nothing to rebuild); hand-built messages mixing binCounts and contiguousBinCounts (dyadic weights where they overlap, indexes also at both ends of the int32 range) must add up, and the rebuilt sketch written again by both writers must describe the same bins. Non-trivial = both stores non-empty and >=1 non-integer weight; distinct = hash of the history.",
 		Cases:     core.Scale(60000, 1500000),
-		Mandatory: []string{"oracle.proto_roundtrips", "oracle.stream_equals_message", "oracle.mixed_message_checks", "weights.arbitrary", "source.cleared_then_refilled", "proto.target.dense", "proto.target.sparse", "proto.target.paginated", "proto.target.collapsing_lowest", "proto.target.collapsing_highest", "proto.via_FromProto", "proto.via_paginated_method", "source.underflowed_bins", "source.reweighted", "mixed.extreme_indexes", "oracle.mixed_second_leg", "source.unread_before_writing", "source.wide_span", "oracle.message_is_a_snapshot"},
+		Mandatory: []string{"oracle.proto_roundtrips", "oracle.later_message_checks", "later_message.mapping_replaced_by_equal_one", "oracle.stream_equals_message", "oracle.mixed_message_checks", "weights.arbitrary", "source.cleared_then_refilled", "proto.target.dense", "proto.target.sparse", "proto.target.paginated", "proto.target.collapsing_lowest", "proto.target.collapsing_highest", "proto.via_FromProto", "proto.via_paginated_method", "source.underflowed_bins", "source.reweighted", "mixed.extreme_indexes", "oracle.mixed_second_leg", "source.unread_before_writing", "source.wide_span", "oracle.message_is_a_snapshot"},
 		Run:       runC09,
 	})
 }
@@ -640,6 +640,71 @@ func runC09(c *core.Ctx) {
 		if !c.Failed() && !proto.Equal(pb, &snap) {
 			c.Failf("proto.message_follows_source", "the message returned by ToProto() changed when the sketch it came from was used further: now %v, at the time %v", shortPB(pb), shortPB(&snap))
 			return
+		}
+	}
+	// later messages: the sketch has been converted before (whatever it keeps from that must not outlive a change
+	// of what it holds). Decoding a stream whose mapping equals the sketch's within the tolerance of Equals but not
+	// bit for bit makes the sketch carry that mapping (IndexMapping is a public field: what it holds can be read);
+	// both writers must then describe the mapping the sketch holds now. The earlier message is scribbled on first:
+	// messages are values of their own.
+	if r.P(0.5) && !c.Failed() {
+		var m2 *gen.Map
+		for k := 1; k <= 3 && m2 == nil; k++ {
+			g2 := m.Gamma * (1 + float64(k*(1-2*r.Intn(2)))*0x1p-43)
+			if cand, err := gen.NewMapGamma(m.Kind, g2, m.Offset); err == nil && cand.M.Equals(m.M) && m.M.Equals(cand.M) && g2 != m.Gamma {
+				m2 = cand
+			}
+		}
+		if r.P(0.3) {
+			m2 = m // same mapping again: nothing changes
+		}
+		if m2 != nil {
+			var pb2 *sketchpb.DDSketch
+			var buf2 bytes.Buffer
+			var derr error
+			if c.Guard("later message", func() {
+				t := ddsketch.NewDDSketchFromStoreProvider(m2.M, store.SparseStoreConstructor)
+				if r.Bool() {
+					t.AddWithCount(vs.vals[r.Intn(len(vs.vals))], 2)
+				}
+				var enc []byte
+				t.Encode(&enc, false)
+				derr = s.P.DecodeAndMergeWith(enc)
+				if pb.Mapping != nil {
+					pb.Mapping.Gamma, pb.Mapping.IndexOffset = 123.25, -7
+				}
+				if r.Bool() {
+					pb2 = s.P.ToProto()
+					s.P.EncodeProto(&buf2)
+				} else {
+					s.P.EncodeProto(&buf2)
+					pb2 = s.P.ToProto()
+				}
+			}) {
+				return
+			}
+			if derr != nil {
+				c.Failf("proto.later.decode", "DecodeAndMergeWith of a stream with an equal mapping (%s into %s): %v", m2.Desc, m.Desc, derr)
+				return
+			}
+			c.Count("oracle.later_message_checks", 1)
+			if m2 != m {
+				c.Count("later_message.mapping_replaced_by_equal_one", 1)
+			}
+			var streamed2 sketchpb.DDSketch
+			if err := proto.Unmarshal(buf2.Bytes(), &streamed2); err != nil {
+				c.Failf("stream.unmarshal", "the bytes written by EncodeProto do not unmarshal: %v", err)
+				return
+			}
+			if !proto.Equal(&streamed2, pb2) {
+				c.Failf("stream.differs_later", "after an earlier conversion and a decode, EncodeProto bytes unmarshal to a message different from ToProto(): streamed %v vs message %v", shortPB(&streamed2), shortPB(pb2))
+				return
+			}
+			held := s.P.IndexMapping.ToProto()
+			if !proto.Equal(pb2.Mapping, held) {
+				c.Failf("proto.later.mapping", "the message describes mapping %v, the sketch holds %v", pb2.Mapping, held)
+				return
+			}
 		}
 	}
 	// store-level helper
